@@ -22,6 +22,7 @@ package builder
 
 import (
 	"fmt"
+	"math"
 	"math/big"
 	"reflect"
 	"time"
@@ -128,10 +129,9 @@ func (_this *BuilderEventReceiver) OnPositiveInt(value uint64) {
 
 func (_this *BuilderEventReceiver) OnNegativeInt(value uint64) {
 	if value == 0 {
-		// Yes, this stupidity around negative zero literals in go is intentional. Blame them.
-		const zero = float64(0)
-		const negZero = -zero
-		_this.OnFloat(negZero)
+		// Go has no negative zero constant (-0.0 and -zero are constant-folded to
+		// +0), so the value must be made at run time.
+		_this.OnFloat(math.Copysign(0, -1))
 		return
 	}
 	if value <= 0x7fffffffffffffff {
